@@ -10,6 +10,7 @@ import re
 import sys
 import common
 import c18_loops as loops
+import c18_race as race
 from common import Rng, coq_z, coq_list, coq_bool
 
 PROP_FILES = ["theories/Properties/C18.v"]
@@ -258,10 +259,13 @@ BIGNUM = re.compile(r"\(-\d{7,}\)|(?<![\w.])\d{7,}")
 GCONST = [("gU64M", U64M), ("gTSMAX", TS_MAX), ("gNOW", NOW)]
 PREAMBLE = ("From EC Require Import Model.AddrBook.\n" +
             "".join("Definition %s : BinNums.Z := %d%%Z.\n" % (n, v) for n, v in GCONST) +
-            "Definition run_any (x : (bool * list op) + net_case) : obsv :=\n"
-            "  match x with inl a => Model.AddrBook.run_case a | inr b => Model.AddrBook.run_net_case b end.\n"
-            "Definition cA (a : bool * list op) : (bool * list op) + net_case := inl a.\n"
-            "Definition cB (b : net_case) : (bool * list op) + net_case := inr b.\n")
+            "Definition lin_case := (bool * list op * list (list op) * list obsv * list obsv)%type.\n"
+            "Definition run_any (x : (bool * list op) + net_case + lin_case) : obsv :=\n"
+            "  match x with inl (inl a) => Model.AddrBook.run_case a | inl (inr b) => Model.AddrBook.run_net_case b\n"
+            "  | inr c => Model.AddrBook.run_lin_case c end.\n"
+            "Definition cA (a : bool * list op) : (bool * list op) + net_case + lin_case := inl (inl a).\n"
+            "Definition cB (b : net_case) : (bool * list op) + net_case + lin_case := inl (inr b).\n"
+            "Definition cC (c : lin_case) : (bool * list op) + net_case + lin_case := inr c.\n")
 
 
 def compress(term):
@@ -449,7 +453,7 @@ def run(rep):
     if not po["ok"]:
         broken.append("Coq obligations of Properties/C18.v: " + (po["log_tail"] or str(po["hygiene_problems"] or po["bad_axioms"])))
     for prof in ("dev", "release"):
-        ok, out = common.cargo_build(["addrbook"] + (["addrloops"] if prof == "dev" else []), prof)
+        ok, out = common.cargo_build(["addrbook"] + (["addrloops", "addrrace"] if prof == "dev" else []), prof)
         if not ok:
             raise common.MachineryError("cargo build failed: " + out[-2000:])
     st_gen, st_res = {}, {}
@@ -497,19 +501,66 @@ def run(rep):
             for op, s_ in zip(ljson[j]["ops"], o["ops"]):
                 if s_["res"] != "ok" or any(len(r) > 1 for r in s_["repush"]):
                     dist.add(json.dumps([ljson[j]["committee"], len(c["nodes"]), op], sort_keys=True))
-    sample_ids = [0, 2, 3, 4, n, nl, nl + 1]
+    # concurrent use of one book from several threads (checks H-ATOM on the code)
+    st_race = {}
+    rcases = race.make_cases(rng, 14 if tier == "quick" else 150, 20 if tier == "quick" else 60)
+    rjson = [race.json_case(c) for c in rcases]
+    routs = loops.run_impl_parallel(rjson, binname="addrrace")
+    nr = nl + len(lcases)
+    for j, (c, o) in enumerate(zip(rcases, routs)):
+        if "crash" in o or "skipped" in o:
+            raise common.MachineryError(f"addrrace crashed on case {j}: {o}")
+        for b in race.predicate(c, o, st_race):
+            pred_fail.append({"race_case": rjson[j], **b})
+        coq_cases.append((nr + j, compress("cC " + race.coq_case(c, o)), common.to_obsv(race.expected_obs(o))))
+        evals += sum(len(t) for t in c["threads"]) * len(o["trials"])
+        for t in o["trials"]:
+            dist.add(json.dumps([rjson[j]["threads"], t["final"], [x[2] for x in t["samples"]]], sort_keys=True))
+    # ... and the deterministic interleaving behind a held lock (needs proposed_hooks/C18_lock.diff)
+    nd = nr + len(rcases)
+    dcases, djson, douts = [], [], []
+    okd, outd = common.cargo_build(["addrrace_det"], "dev")
+    if okd:
+        det_note = "run"
+        dcases = race.det_cases(rng, 40 if tier == "quick" else 600)
+        djson = [race.det_json(c) for c in dcases]
+        douts = common.run_impl("addrrace_det", djson, "dev")
+        for j, (c, o) in enumerate(zip(dcases, douts)):
+            if "crash" in o or "skipped" in o:
+                raise common.MachineryError(f"addrrace_det crashed on case {j}: {o}")
+            for b in race.det_predicate(c, o):
+                pred_fail.append({"det_case": djson[j], "impl": o, **b})
+            coq_cases.append((nd + j, compress("cC " + race.det_coq_case(c, o)), common.to_obsv([[1], [1]])))
+            evals += len(c["ops"])
+            dist.add(json.dumps(djson[j], sort_keys=True))
+    elif "hold_lock" in outd:
+        det_note = "skipped: hook /verif/proposed_hooks/C18_lock.diff (AddrBook::hold_lock) is not applied to /repo"
+    else:
+        raise common.MachineryError("cargo build of addrrace_det failed: " + outd[-2000:])
+    sample_ids = [0, 2, 3, 4, n, nl, nl + 1, nr]
     mm, samp = common.run_model_cases("C18", PREAMBLE, "run_any",
                                       coq_cases, shard_size=max(40, (len(coq_cases) + 15) // 16), sample_ids=sample_ids)
     if mm:
-        broken.append(f"correspondence vh addrbook vs Model.AddrBook.run_case: {len(mm)} disagreeing cases")
+        broken.append(f"correspondence vh addrbook / addrloops / addrrace vs Model.AddrBook (run_case / run_net_case / run_lin_case): {len(mm)} disagreeing cases, ids {sorted(mm)[:6]}")
 
     def case_of(i):
+        if i >= nd:
+            return (dcases[i - nd], douts[i - nd], True)
+        if i >= nr:
+            return (rcases[i - nr], routs[i - nr], True)
         if i >= nl:
             return (lcases[i - nl], louts[i - nl], True)
         return (cases[i], outs[i], True) if i < n else (rel_cases[i - n], rel_outs[i - n], False)
 
     def jcase_of(i):
+        if i >= nd:
+            return djson[i - nd]
+        if i >= nr:
+            return rjson[i - nr]
         return ljson[i - nl] if i >= nl else json_case(case_of(i)[0])
+
+    def key_of(i):
+        return "det_case" if i >= nd else "race_case" if i >= nr else "loops_case" if i >= nl else "case"
 
     searched = 0
     if broken and not pred_fail:
@@ -523,7 +574,12 @@ def run(rep):
         for c, cj, o in zip(bl, blj, loops.run_impl_parallel(blj)):
             for b in loops.predicate(c, o):
                 pred_fail.append({"loops_case": cj, **b})
-        searched = len(big) + len(bl)
+        br = race.make_cases(srng, 60 if tier == "quick" else 300, 60)
+        brj = [race.json_case(c) for c in br]
+        for c, cj, o in zip(br, brj, loops.run_impl_parallel(brj, binname="addrrace")):
+            for b in race.predicate(c, o):
+                pred_fail.append({"race_case": cj, **b})
+        searched = len(big) + len(bl) + len(br)
     if pred_fail:
         rep.violation("address book violates C18 on the implementation: " + pred_fail[0]["failed"],
                       {"failing_input": pred_fail[0], "more": pred_fail[1:4], "broken": broken})
@@ -532,7 +588,7 @@ def run(rep):
         if mm:
             i = sorted(mm)[0]
             c, o, chk = case_of(i)
-            first = {("loops_case" if i >= nl else "case"): jcase_of(i), "chk": chk, "impl": o, "model_obs": mm[i]}
+            first = {key_of(i): jcase_of(i), "chk": chk, "impl": o, "model_obs": mm[i]}
         rep.violation("C18 no longer shown to hold: " + "; ".join(broken)[:500],
                       {"broken": broken, "first_disagreement": first, "searched_cases": searched}, found_input=False)
     samples = []
@@ -561,10 +617,18 @@ def run(rep):
                 "that dials) over loopback TCP with committees of 3-5 keys; 3-7 push_validator_addrs requests of 1-5 announcements sent by the scripted peer (same stamp "
                 "generator, ~16% forged, non-members, duplicate keys, valid prefix + invalid tail), each followed by a barrier announcement; observed: response or "
                 "closed stream, every entry each node pushes back, the TCP connections the validator node opens to announced addresses, final books; a loops "
-                "operation counts as 2 evaluations (request + barrier) and is non-trivial if rejected or if it made a node push news",
+                "operation counts as 2 evaluations (request + barrier) and is non-trivial if rejected or if it made a node push news. CONCURRENT: one real book used by "
+                "2-4 OS threads at once (1-2 announcers of the node's own key, updaters with valid strictly newer batches for other keys and sometimes for the own key, "
+                "2-7 operations in all, every case repeated 20 (quick) / 60 times) while a sampler thread reads the published book; every final book must be the result of some "
+                "interleaving of the atomic model operations (Model.AddrBook.run_lin_case enumerates them), every published book a state some interleaving passes through; "
+                "predicates: no key's stamp decreases or disappears across published versions, entries of a returned update stay unless superseded, final = newest accepted per key; "
+                "non-trivial = distinct (threads, final, published sequence); DETERMINISTIC INTERLEAVING (only with hook C18_lock.diff): operations polled once behind a held lock, "
+                "then released: result must equal sequential execution in poll order",
         "input_distribution": {"case_kinds": kinds, "generated": st_gen, "impl_outcomes": st_res,
                                "release_profile_cases": len(rel_cases), "convergence_pairs_checked": conv,
-                               "loops_case_kinds": lkinds, "loops_outcomes": st_loops},
+                               "loops_case_kinds": lkinds, "loops_outcomes": st_loops,
+                               "concurrent_cases": len(rcases), "concurrent_outcomes": st_race,
+                               "deterministic_interleaving_family": det_note, "deterministic_interleaving_cases": len(dcases)},
         "cases": len(coq_cases),
         "samples": samples,
         "correspondence_mismatches": len(mm), "predicate_failures": len(pred_fail),
@@ -574,11 +638,16 @@ def run(rep):
                    "client loop, outside traffic arbitrary; own announce ops are not part of that system (they are covered by authentic/monotone); "
                    "across a committee change the theorems are per-batch-schedule (book = newest announcement accepted while its key was a member; keys that left are frozen); "
                    "in the code a new epoch starts a new Network instance with an empty book, which is the special case of a fresh history; "
+                   "atomicity of announce / update (H-ATOM) is an assumption of the theorems; it is checked on the code by the concurrent family (real threads + linearisation oracle; "
+                   "the deterministic interleaving part runs only once hook proposed_hooks/C18_lock.diff is applied); "
                    "the real loops are tied by correspondence and predicates (vh addrloops), their rpc plumbing (mux, limiter, scope) is not modelled here (C14-C17)",
     })
     rep.assumptions += [
         "H-SIG: a signature verifies under key k for message m iff it is the term sig(k, m) (BLS12-381 via blst trusted)",
         "H-ADV (theorem book_honest_origin only): every signature term of an honest key occurring in any batch is one that key produced",
+        "H-ATOM (all history theorems): ValidatorAddrsWatch::update and ::announce each read, modify and publish the book under the watch's sender lock, i.e. are atomic steps; "
+        "this is an assumption of the model, and the concurrent family (vh addrrace: real threads, linearisation oracle; vh addrrace_det: chosen interleaving behind a held lock, "
+        "needs hook C18_lock.diff) is what checks it on the code",
         "H-ATOM (gossip theorems): a served request (ValidatorAddrsWatch::update under its mutex) and the diff computation of the push loop are atomic steps; one request in flight per direction (the client awaits the response)",
     ]
 
@@ -593,6 +662,27 @@ def replay(path):
             return 1
         fi = fd
     prof = "dev" if fi.get("chk", True) else "release"
+    if "race_case" in fi:
+        common.cargo_build(["addrrace"], "dev")
+        c = dict(fi["race_case"]); c["trials"] = 200
+        o = common.run_impl("addrrace", [c], "dev")[0]
+        print("race_case", json.dumps(fi["race_case"]))
+        print("recorded failure:", fi.get("failed")); print(json.dumps(fi.get("trial_obs")))
+        # threads/ops in the json form: rebuild python ints for the predicate
+        pc = {"pool": c["pool"], "committee": c["committee"], "self": c["self"], "trials": 200,
+              "init": [[int(x) for x in e] for e in c["init"]],
+              "threads": [[{"u": [[int(x) for x in e] for e in op["u"]]} if "u" in op else {"a": [int(x) for x in op["a"]]} for op in t] for t in c["threads"]]}
+        bad = race.predicate(pc, o)
+        print(f"re-run of 200 trials: {len(bad)} distinct predicate failures")
+        for b in bad[:3]:
+            print(" ", b["failed"])
+        return 0
+    if "det_case" in fi:
+        common.cargo_build(["addrrace_det"], "dev")
+        print("det_case", json.dumps(fi["det_case"]))
+        print(json.dumps(common.run_impl("addrrace_det", [fi["det_case"]], "dev")[0], indent=1))
+        print("predicate:", fi.get("failed"))
+        return 0
     if "loops_case" in fi:
         common.cargo_build(["addrloops"], "dev")
         print("loops_case", json.dumps(fi["loops_case"]))
